@@ -64,6 +64,9 @@ pub fn dispatch(args: &[String]) -> i32 {
         "sync" => scen_sync(&ctx),
         "iter" => scen_iter(&ctx),
         "params" => scen_params(&ctx),
+        "sizes" => scen_sizes(&ctx),
+        "sentinel" => scen_sentinel(&ctx),
+        "keys" => scen_keys(&ctx),
         "multi" => scen_multi(&ctx),
         "readonly" => scen_readonly(&ctx),
         "determ" => scen_determ(&ctx),
@@ -935,4 +938,378 @@ pub fn scen_determ(ctx: &Ctx) -> i32 {
         }
     }
     finish(ctx, "determ", &b, vec![])
+}
+
+// ------------------------------------------------------------------------------------
+// F_gen: the generated Lean functions against the crate's own compiled functions
+// ------------------------------------------------------------------------------------
+fn bp(f: impl Fn(u64) -> (u64, u64), a: u64, b: u64) -> String {
+    let mut out = String::new();
+    let mut last = (0u64, 0u64);
+    let mut first = true;
+    for i in a..b {
+        let v = f(i);
+        if first || v != last {
+            out.push_str(&format!("{}:{},{};", i, v.0, v.1));
+            last = v;
+            first = false;
+        }
+    }
+    out
+}
+
+struct GenCheck {
+    evaluations: u64,
+    requests: u64,
+    mismatches: Vec<String>,
+    samples: Vec<String>,
+}
+
+fn gen_compare(d: &mut Driver, g: &mut GenCheck, req: String, want: String, points: u64) {
+    let got = d.ask(&req);
+    g.requests += 1;
+    g.evaluations += points;
+    if g.samples.len() < 6 {
+        g.samples.push(format!("{} => {}", req, got.chars().take(80).collect::<String>()));
+    }
+    if got != want && g.mismatches.len() < 5 {
+        // first differing breakpoint
+        let gi: Vec<&str> = got.split(';').collect();
+        let wi: Vec<&str> = want.split(';').collect();
+        let k = gi.iter().zip(wi.iter()).position(|(a, b)| a != b).unwrap_or(gi.len().min(wi.len()));
+        g.mismatches.push(format!("{} : model {:?} / code {:?}", req, gi.get(k).unwrap_or(&"<end>"), wi.get(k).unwrap_or(&"<end>")));
+    }
+}
+
+/// C09 (and the `Gen` part of C10/C12): sizing functions, tables, hash, conversions
+pub fn scen_sizes(ctx: &Ctx) -> i32 {
+    use abyssiniandb::filedb::verif as V;
+    let t0 = std::time::Instant::now();
+    let thorough = ctx.tier_thorough;
+    // ---- value / key slot functions over ranges (breakpoint encoding), in parallel
+    let mut ranges: Vec<(u64, u64)> = Vec::new();
+    if thorough {
+        let step = 1u64 << 20;
+        let mut a = 0;
+        while a < (1 << 24) + 4096 {
+            ranges.push((a, a + step));
+            a += step;
+        }
+    } else {
+        ranges.push((0, 70_000));
+        for k in 7..=24 {
+            let c = 1u64 << k;
+            ranges.push((c.saturating_sub(300), c + 300));
+        }
+        for c in [131_072u64 * 8, 16384 * 8 - 8, 2_097_152 * 8] {
+            ranges.push((c.saturating_sub(200), c + 200));
+        }
+    }
+    let offs: Vec<u64> = vec![0, 192, 1016, 1024, 16376, 16384, 131_064, 131_072, (1 << 21) - 8, 1 << 21, 1 << 24, (1 << 28) - 8, 1 << 28, 1 << 35, 1 << 42, 1 << 49, 1 << 56, (1u64 << 63) - 8];
+    let results: Mutex<Vec<GenCheck>> = Mutex::new(Vec::new());
+    let next = Mutex::new(0usize);
+    let mut jobs: Vec<(String, u64, u64, u64, u64)> = Vec::new(); // kind, a, b, vo, nx
+    for (a, b) in &ranges {
+        jobs.push(("v".into(), *a, *b, 0, 0));
+    }
+    let kmax = if thorough { 1u64 << 16 } else { 3000 };
+    for (i, vo) in offs.iter().enumerate() {
+        for (j, nx) in offs.iter().enumerate() {
+            if thorough || (i + j) % 3 == 0 || i == j {
+                jobs.push(("k".into(), 0, kmax + 40, *vo, *nx));
+                if !thorough {
+                    jobs.push(("k".into(), 65_500, 65_600, *vo, *nx));
+                }
+            }
+        }
+    }
+    std::thread::scope(|sc| {
+        for _ in 0..ctx.threads {
+            let jobs = &jobs;
+            let results = &results;
+            let next = &next;
+            sc.spawn(move || {
+                let Ok(mut d) = Driver::spawn(&ctx.driver) else { return };
+                let mut g = GenCheck { evaluations: 0, requests: 0, mismatches: vec![], samples: vec![] };
+                loop {
+                    let i = {
+                        let mut n = next.lock().unwrap();
+                        let i = *n;
+                        *n += 1;
+                        i
+                    };
+                    if i >= jobs.len() {
+                        break;
+                    }
+                    let (kind, a, b, vo, nx) = &jobs[i];
+                    if kind == "v" {
+                        let want = bp(
+                            |l| {
+                                let (est, slot) = V::value_slot(l as usize);
+                                ((est as u64).wrapping_sub(l), slot as u64)
+                            },
+                            *a,
+                            *b,
+                        );
+                        gen_compare(&mut d, &mut g, format!("gen vslotrange {} {}", a, b), want, b - a);
+                    } else {
+                        let want = bp(
+                            |l| {
+                                let (est, slot) = V::key_slot(l as usize, *vo, *nx);
+                                ((est as u64).wrapping_sub(l), slot as u64)
+                            },
+                            *a,
+                            *b,
+                        );
+                        gen_compare(&mut d, &mut g, format!("gen kslotrange {} {} {} {}", a, b, vo, nx), want, b - a);
+                    }
+                }
+                results.lock().unwrap().push(g);
+            });
+        }
+    });
+    let mut g = GenCheck { evaluations: 0, requests: 0, mismatches: vec![], samples: vec![] };
+    for r in results.into_inner().unwrap() {
+        g.evaluations += r.evaluations;
+        g.requests += r.requests;
+        g.mismatches.extend(r.mismatches);
+        if g.samples.len() < 6 {
+            g.samples.extend(r.samples.into_iter().take(2));
+        }
+    }
+    // ---- the remaining generated functions, one driver
+    if let Ok(mut d) = Driver::spawn(&ctx.driver) {
+        let hi = if thorough { 2_000_000 } else { 200_000 };
+        let want = bp(|x| (V::key_roundup(x as u32) as u64, V::value_roundup(x as u32) as u64), 1, hi);
+        gen_compare(&mut d, &mut g, format!("gen krounduprange 1 {}", hi), want, hi - 1);
+        let want = bp(|x| (V::capacity_to_buckets_size(x), x.next_power_of_two()), 1, 100_000);
+        gen_compare(&mut d, &mut g, "gen caprange 1 100000".into(), want, 99_999);
+        for sz in (0..1300u32).chain([1024 * 5, 1 << 20, u32::MAX / 2]) {
+            let (o, l) = V::key_free_list_offset(sz.max(1));
+            gen_compare(&mut d, &mut g, format!("gen kfree {}", sz.max(1)), format!("{} {}", o, l), 1);
+            let (o, l) = V::value_free_list_offset(sz.max(1));
+            gen_compare(&mut d, &mut g, format!("gen vfree {}", sz.max(1)), format!("{} {}", o, l), 1);
+        }
+        gen_compare(&mut d, &mut g, "gen cap 0".into(), "panic".into(), 1);
+        for k in 0..64 {
+            for dlt in [0u64, 1] {
+                let c = (1u64 << k).wrapping_sub(dlt).max(1);
+                if c + c / 8 < 1 << 62 {
+                    gen_compare(&mut d, &mut g, format!("gen cap {}", c), V::capacity_to_buckets_size(c).to_string(), 1);
+                }
+            }
+        }
+        let mut rng = Rng::new(ctx.seed ^ 0x5153);
+        let n = if thorough { 200_000 } else { 20_000 };
+        for i in 0..n {
+            let x = if i < 64 { 1u64 << i } else if i < 130 { (1u64 << (i - 64).min(63)).wrapping_sub(1) } else { rng.next() };
+            gen_compare(&mut d, &mut g, format!("gen xs {}", x), V::xorshift64s(x).to_string(), 1);
+        }
+        // hash_value of the public key types against the model's hash
+        use abyssiniandb::{DbBytes, DbString};
+        for i in 0..(if thorough { 50_000 } else { 6_000 }) {
+            let l = match i % 7 { 0 => i % 40, 1 => 7, 2 => 8, 3 => 9, 4 => 16, 5 => (i % 300) as usize + 17, _ => rng.below(70) as usize };
+            let k: Vec<u8> = (0..l).map(|_| rng.below(256) as u8).collect();
+            use abyssiniandb::HashValue;
+            let h1 = DbBytes::from(k.as_slice()).hash_value();
+            let h2 = DbString::from(k.as_slice()).hash_value();
+            let h3 = abyssiniandb::DbU64::from(k.as_slice()).hash_value();
+            let h4 = abyssiniandb::DbI64::from(k.as_slice()).hash_value();
+            let h5 = abyssiniandb::DbVu64::from(k.as_slice()).hash_value();
+            let want = if h1 == h2 && h2 == h3 && h3 == h4 && h4 == h5 { h1.to_string() } else { format!("key types disagree: {} {} {} {} {}", h1, h2, h3, h4, h5) };
+            gen_compare(&mut d, &mut g, format!("gen hash x{}", hex(&k)), want, 1);
+        }
+        for kt in Kt::ALL {
+            gen_compare(&mut d, &mut g, format!("gen sig {}", kt.name()), hex(&sig_of_impl(kt)), 1);
+        }
+    }
+    let wall = t0.elapsed().as_secs_f64();
+    let ok = g.mismatches.is_empty();
+    let mut failures = Vec::new();
+    if !ok {
+        let path = ctx.replays.join(format!("{}-gen-{:016x}.txt", ctx.prop, fnv(&g.mismatches.join("|"))));
+        let _ = std::fs::write(&path, format!("# property={} facet=gen: generated Lean functions vs the crate's compiled functions (layout-probe hook)\n{}\n", ctx.prop, g.mismatches.join("\n")));
+        failures.push(obj(&[("facet", esc("gen")), ("replay", esc(&path.to_string_lossy())), ("detail", esc(&g.mismatches[0]))]));
+    }
+    println!(
+        "{}",
+        obj(&[
+            ("scenario", esc("sizes")),
+            ("property", esc(&ctx.prop)),
+            ("seed", ctx.seed.to_string()),
+            ("sequences", g.requests.to_string()),
+            ("distinct_sequences", g.requests.to_string()),
+            ("ops", g.evaluations.to_string()),
+            ("gen_evaluations", g.evaluations.to_string()),
+            ("gen_requests", g.requests.to_string()),
+            ("exhaustive_value_lengths", if thorough { "true".into() } else { "false".into() }),
+            ("samples", arr(&g.samples.iter().map(|s| esc(s)).collect::<Vec<_>>())),
+            ("failures", arr(&failures)),
+            ("wall_s", format!("{:.1}", wall)),
+        ])
+    );
+    if ok { 0 } else { 1 }
+}
+
+/// signature each key type declares (through the public trait)
+pub fn sig_of_impl(kt: Kt) -> [u8; 8] {
+    use abyssiniandb::DbMapKeyType;
+    match kt {
+        Kt::Str => abyssiniandb::DbString::signature(),
+        Kt::Bytes => abyssiniandb::DbBytes::signature(),
+        Kt::U64 => abyssiniandb::DbU64::signature(),
+        Kt::I64 => abyssiniandb::DbI64::signature(),
+        Kt::Vu64 => abyssiniandb::DbVu64::signature(),
+    }
+}
+
+/// C09 end-to-end: every length between two sentinel entries, files compared byte for byte
+pub fn scen_sentinel(ctx: &Ctx) -> i32 {
+    let thorough = ctx.tier_thorough;
+    let mut lens: Vec<usize> = Vec::new();
+    if thorough {
+        lens.extend(0..4200);
+    } else {
+        lens.extend(0..1300);
+        lens.extend((1300..4200).step_by(7));
+        lens.extend(4080..4110);
+    }
+    for c in [16384usize, 131_072, 1_048_576] {
+        let w = if thorough { 12 } else { 4 };
+        lens.extend((c - w)..(c + w));
+    }
+    let mut seqs = Vec::new();
+    let chunk = if thorough { 70 } else { 60 };
+    for (ci, part) in lens.chunks(chunk).enumerate() {
+        let kt = Kt::ALL[ci % 5];
+        let mk = |i: u64| -> B {
+            match kt {
+                Kt::U64 | Kt::I64 => B::Hex(i.to_le_bytes().to_vec()),
+                Kt::Vu64 => B::Hex(crate::imp::vu64_encode(i)),
+                _ => B::Hex(format!("key{}", i).into_bytes()),
+            }
+        };
+        let (a, x, z) = (mk(1), mk(2), mk(3));
+        let mut ops = vec![Op::Put(a.clone(), B::Pat(10, 1)), Op::Put(x.clone(), B::Pat(part[0], 2)), Op::Put(z.clone(), B::Pat(10, 3))];
+        for (j, l) in part.iter().enumerate() {
+            ops.push(Op::Put(x.clone(), B::Pat(*l, j as u64)));
+            ops.push(Op::Get(x.clone()));
+            ops.push(Op::Get(a.clone()));
+            ops.push(Op::Get(z.clone()));
+            // one byte shorter / longer across the boundary
+            if j % 5 == 0 && *l > 0 {
+                ops.push(Op::Put(x.clone(), B::Pat(*l - 1, 9)));
+                ops.push(Op::Put(x.clone(), B::Pat(*l + 1, 8)));
+                ops.push(Op::Get(x.clone()));
+            }
+        }
+        // key lengths too
+        if ci % 5 == 1 || ci % 5 == 0 {
+            for kl in (0..260).chain([1000, 1016, 1017, 1018, 1019, 1020, 1021, 4096, 65_535, 65_536]) {
+                if matches!(kt, Kt::Str | Kt::Bytes) {
+                    ops.push(Op::Put(B::Pat(kl, 77), B::Pat(kl % 50, 5)));
+                    ops.push(Op::Get(B::Pat(kl, 77)));
+                }
+            }
+            ops.push(Op::Get(a.clone()));
+            ops.push(Op::Get(z.clone()));
+        }
+        seqs.push(Seq { kt, params: Params::buckets(*[1u64, 4, 64].get(ci % 3).unwrap()), ops });
+    }
+    let b = run_batch(ctx, seqs, |_| RunOpts { cmp_every: Some(1), cmp_end: true, decoder: true, ..Default::default() }, &["bytes", "api", "oracle", "decoder"], "sentinel");
+    finish(ctx, "sentinel", &b, vec![])
+}
+
+/// C10: typed keys — conversions and typed maps
+pub fn scen_keys(ctx: &Ctx) -> i32 {
+    let thorough = ctx.tier_thorough;
+    let mut g = GenCheck { evaluations: 0, requests: 0, mismatches: vec![], samples: vec![] };
+    let mut rng = Rng::new(ctx.seed ^ fnv("keys"));
+    if let Ok(mut d) = Driver::spawn(&ctx.driver) {
+        let n = if thorough { 1_000_000 } else { 30_000 };
+        let mut xs: Vec<u64> = Vec::new();
+        for k in 0..64 {
+            for dlt in [-1i64, 0, 1] {
+                xs.push((1u64 << k).wrapping_add(dlt as u64));
+            }
+        }
+        for k in 1..10 {
+            for dlt in [-1i64, 0, 1] {
+                xs.push(if 7 * k >= 64 { u64::MAX } else { 1u64 << (7 * k) }.wrapping_add(dlt as u64));
+            }
+        }
+        xs.extend([0, 1, u64::MAX, u64::MAX - 1, i64::MAX as u64, i64::MIN as u64, (i64::MIN + 1) as u64]);
+        while xs.len() < n {
+            xs.push(rng.next() >> rng.below(64));
+        }
+        for x in xs {
+            use abyssiniandb::{DbI64, DbMapKeyType, DbU64, DbVu64};
+            // u64
+            let a = DbU64::from(x);
+            let b = DbU64::from(&x);
+            let back = u64::from(&a);
+            let back2 = u64::from(a.clone());
+            let same = a.as_bytes() == b.as_bytes() && back == back2;
+            gen_compare(&mut d, &mut g, format!("gen u64 {}", x), format!("{} {}{}", hex(a.as_bytes()), back, if same { "" } else { " BYREF-MISMATCH" }), 1);
+            // i64
+            let xi = x as i64;
+            let a = DbI64::from(xi);
+            let b = DbI64::from(&xi);
+            let back = i64::from(&a);
+            let back2 = i64::from(a.clone());
+            let same = a.as_bytes() == b.as_bytes() && back == back2;
+            gen_compare(&mut d, &mut g, format!("gen i64 {}", xi), format!("{} {}{}", hex(a.as_bytes()), back, if same { "" } else { " BYREF-MISMATCH" }), 1);
+            // vu64
+            let a = DbVu64::from(x);
+            let b = DbVu64::from(&x);
+            let back = u64::from(&a);
+            let back2 = u64::from(a.clone());
+            let same = a.as_bytes() == b.as_bytes() && back == back2;
+            gen_compare(&mut d, &mut g, format!("gen vu64 {}", x), format!("{} {}{}", hex(a.as_bytes()), back, if same { "" } else { " BYREF-MISMATCH" }), 1);
+        }
+    }
+    let mut failures: Vec<Failure> = Vec::new();
+    if !g.mismatches.is_empty() {
+        let path = ctx.replays.join(format!("{}-gen-{:016x}.txt", ctx.prop, fnv(&g.mismatches.join("|"))));
+        let _ = std::fs::write(&path, format!("# property={} facet=gen: integer <-> key conversions, crate vs model\n{}\n", ctx.prop, g.mismatches.join("\n")));
+        failures.push(Failure { facet: "gen".into(), replay: path.to_string_lossy().to_string(), detail: g.mismatches[0].clone() });
+    }
+    // typed maps and byte keys that are prefixes of each other / contain NULs / are not UTF-8
+    let mut seqs = Vec::new();
+    for i in 0..sizes(ctx, 50, 500) {
+        let mut r = rng.fork(i as u64);
+        let kt = *r.pick(&[Kt::U64, Kt::I64, Kt::Vu64, Kt::Str, Kt::Bytes]);
+        let n = *r.pick(&[1u64, 2, 8, 64, 256]);
+        let mut p = Profile::basic(kt, n, 120);
+        p.w = [40, 15, 12, 5, 2, 0, 8, 0, 0, 1, 0, 4, 0, 0];
+        p.val_mode = 0;
+        p.pool = r.range(3, 40) as usize;
+        let mut s = gen_history(&mut r, &p);
+        if matches!(kt, Kt::Str | Kt::Bytes) {
+            // prefixes, NULs, non-UTF-8
+            let base: Vec<u8> = vec![b'a', 0, b'b', 0xff, 0xfe, b'c', 0, 0];
+            let mut extra = Vec::new();
+            for l in 0..=base.len() {
+                extra.push(Op::Put(B::Hex(base[..l].to_vec()), B::Hex(vec![l as u8])));
+            }
+            for l in 0..=base.len() {
+                extra.push(Op::Get(B::Hex(base[..l].to_vec())));
+            }
+            extra.push(Op::Del(B::Hex(base[..3].to_vec())));
+            for l in 0..=base.len() {
+                extra.push(Op::Get(B::Hex(base[..l].to_vec())));
+            }
+            extra.push(Op::Iter(0));
+            let at = r.below(s.ops.len() as u64 + 1) as usize;
+            for (j, o) in extra.into_iter().enumerate() {
+                s.ops.insert(at + j, o);
+            }
+        }
+        s.ops.push(Op::Iter(0));
+        s.ops.push(Op::Iter(2));
+        seqs.push(s);
+    }
+    let mut b = run_batch(ctx, seqs, |_| RunOpts { cmp_end: true, ..Default::default() }, &["api", "oracle", "bytes"], "keys");
+    b.failures.extend(failures);
+    finish(ctx, "keys", &b, vec![("gen_evaluations", g.evaluations.to_string())])
 }
